@@ -488,7 +488,15 @@ func c13(c *core.Ctx) {
 				}
 				if hc.Stream {
 					// stream handlers get the ctx through the stream object: check any peer.NewContext in the closure
-					for _, call := range core.CallsIn(hc.Fn, func(_ *ssa.Call, ci core.CallInfo) bool { return ci.Is(peerPkg + ".NewContext") }) {
+					scope := []*ssa.Function{hc.Fn}
+					for _, h := range core.HelperCallsOf(hc.Fn) {
+						scope = append(scope, h.Callee)
+					}
+					var ncs []*ssa.Call
+					for _, f := range scope {
+						ncs = append(ncs, core.CallsIn(f, func(_ *ssa.Call, ci core.CallInfo) bool { return ci.Is(peerPkg + ".NewContext") })...)
+					}
+					for _, call := range ncs {
 						if core.OriginIs(call.Call.Args[1], func(o ssa.Value) bool {
 							cr, _, ok := core.CallResult(o)
 							return ok && core.InfoOf(&cr.Call).Static == peerFromReq
@@ -527,7 +535,25 @@ func mustCallRoundTrip(fn *ssa.Function, depth int) bool {
 }
 
 func callsFromOutgoing(fn *ssa.Function) bool {
-	return len(core.CallsIn(fn, func(_ *ssa.Call, ci core.CallInfo) bool { return ci.Is(metadataPkg + ".FromOutgoingContext") })) > 0
+	return callsFromOutgoingDepth(fn, 0)
+}
+
+func callsFromOutgoingDepth(fn *ssa.Function, depth int) bool {
+	if fn == nil || fn.Blocks == nil || depth > 2 {
+		return false
+	}
+	if len(core.CallsIn(fn, func(_ *ssa.Call, ci core.CallInfo) bool { return ci.Is(metadataPkg + ".FromOutgoingContext") })) > 0 {
+		return true
+	}
+	// through a helper of the module that is handed a context
+	for _, h := range core.HelperCallsOf(fn) {
+		for _, a := range h.Call.Call.Args {
+			if core.TypeStr(a.Type()) == "context.Context" && callsFromOutgoingDepth(h.Callee, depth+1) {
+				return true
+			}
+		}
+	}
+	return false
 }
 
 // ctxDerivesFromCall: the context value v derives (through context-deriving
@@ -620,6 +646,19 @@ func ctxPassesThroughSome(v ssa.Value, pred func(*ssa.Call) bool) bool {
 			}
 			if nxt, _, ok := ctxDeriving(call); ok && rec(nxt) {
 				return true
+			}
+			// a helper of the module that builds and returns the context: look at what it returns
+			if h := call.Call.StaticCallee(); h != nil && h.Blocks != nil && h.Pkg != nil && strings.HasPrefix(h.Pkg.Pkg.Path(), core.ModulePath) &&
+				h.Signature.Results().Len() >= 1 && core.TypeStr(h.Signature.Results().At(0).Type()) == "context.Context" {
+				all := len(core.Returns(h)) > 0
+				for _, r := range core.Returns(h) {
+					if !rec(r.Results[0]) {
+						all = false
+					}
+				}
+				if all {
+					return true
+				}
 			}
 		}
 		return false
